@@ -54,4 +54,60 @@ theorem GetRange_eq_model (v : Bytes) (a b : Int) (hv : v.length < 2 ^ 62) (ha :
     | (simp (disch := omega) only [if_pos, if_neg, Option.getD_some, Option.getD_none, pure, Except.pure]; done)
     | (simp (disch := omega) only [if_pos, if_neg, Option.getD_some, Option.getD_none, pure, Except.pure]; congr 3 <;> omega)
 
+def getBit (v : Bytes) (offset : Int) : GoLib.M Int := do
+  let mut i : Int := (Int.tdiv offset 8)
+  if (((decide (offset < 0)) || ((GoLib.len v) == 0)) || (decide (i > (GoLib.wrap .i64 ((GoLib.len v) - 1))))) then
+    return 0
+  let mut by_ : Int := (← GoLib.idx v i)
+  let mut bit : Int := (GoLib.shl .u8 1 (GoLib.wrap .u64 (7 - (GoLib.wrap .u64 (Int.tmod offset 8)))))
+  if ((GoLib.band .u8 by_ bit) != 0) then
+    return 1
+  return 0
+
+/-- byte-level agreement of the Int bit test (translation) and the UInt8 bit test (model), all bytes × all 8 positions -/
+theorem bit_test_fact : ∀ c : Fin 256, ∀ k : Fin 8,
+    (band .u8 ((UInt8.ofNat c.val).toNat : Int) (shl .u8 1 (7 - (k.val : Int))) != 0) =
+    ((UInt8.ofNat c.val) &&& ((1 : UInt8) <<< UInt8.ofNat (7 - k.val)) != 0) := by
+  decide +kernel
+
+theorem getBit_eq_model (v : Bytes) (o : Int) (hv : v.length < 2 ^ 62) (ho : inInt64 o) :
+    getBit v o = .ok (DsStr.getBit (some v) o) := by
+  have ho' := inInt64_iff.mp ho
+  have hw : wrap .i64 ((v.length : Int) - 1) = (v.length : Int) - 1 := by
+    rw [wrap_i64_id]; omega
+  unfold getBit DsStr.getBit
+  simp only [DsStr.bytes, Option.getD_some, len_eq, hw]
+  by_cases hneg : o < 0
+  · have hcond : (o < 0 ∨ v.length = 0 ∨ o / 8 > (v.length : Int) - 1) := Or.inl hneg
+    simp only [decide_eq_true hneg, Bool.true_or, if_true, hcond]
+    rfl
+  have hdiv : Int.tdiv o 8 = o / 8 := Int.tdiv_eq_ediv_of_nonneg (by omega)
+  have hmod : Int.tmod o 8 = o % 8 := Int.tmod_eq_emod_of_nonneg (by omega)
+  rw [hdiv, hmod]
+  by_cases hz : v.length = 0
+  · have hcond : (o < 0 ∨ v.length = 0 ∨ o / 8 > (v.length : Int) - 1) := Or.inr (Or.inl hz)
+    have hz' : ((v.length : Int) == 0) = true := by rw [hz]; rfl
+    simp only [hz', Bool.or_true, Bool.true_or, if_true, hcond]
+    rfl
+  have hz' : ((v.length : Int) == 0) = false := beq_eq_false_iff_ne.mpr (by omega)
+  by_cases hi : o / 8 > (v.length : Int) - 1
+  · have hcond : (o < 0 ∨ v.length = 0 ∨ o / 8 > (v.length : Int) - 1) := Or.inr (Or.inr hi)
+    simp only [decide_eq_true hi, Bool.or_true, if_true, hcond]
+    rfl
+  have hk : 0 ≤ o % 8 ∧ o % 8 < 8 := by omega
+  have hidx : idx v (o / 8) = .ok ((v.getD (o / 8).toNat 0).toNat : Int) := by
+    have : 0 ≤ o / 8 ∧ o / 8 < (v.length : Int) := by omega
+    simp [idx, this, pure, Except.pure]
+  have hsh : wrap .u64 (7 - wrap .u64 (o % 8)) = 7 - o % 8 := by
+    rw [wrap_u64, wrap_u64]; omega
+  have hf := bit_test_fact ⟨(v.getD (o / 8).toNat 0).toNat, (v.getD (o / 8).toNat 0).toNat_lt⟩ ⟨(o % 8).toNat, by omega⟩
+  simp only [UInt8.ofNat_toNat] at hf
+  have hcast : (((o % 8).toNat : Nat) : Int) = o % 8 := by omega
+  rw [hcast] at hf
+  have hcond : ¬ (o < 0 ∨ v.length = 0 ∨ o / 8 > (v.length : Int) - 1) := by omega
+  simp only [decide_eq_false hneg, decide_eq_false hi, hz', Bool.or_false, Bool.false_eq_true, if_false, hidx, hsh, bind,
+    Except.bind, hcond, DsStr.bitMask, hf]
+  simp only [pure, Except.pure]
+  split <;> rename_i h <;> simp at h ⊢ <;> simp [h]
+
 end NodisVerif.StrNF
